@@ -818,6 +818,22 @@ static void builtin_alloca(void) {
   println("  mov %%rax, %d(%%rbp)", current_fn->alloca_bottom->offset);
 }
 
+// cmpxchg and xchg work on general registers: a float or double operand
+// is moved there bit for bit, and an old value moved back.
+static void flonum_to_bits(Type *ty) {
+  if (ty->kind == TY_FLOAT)
+    println("  movd %%xmm0, %%eax");
+  else if (ty->kind == TY_DOUBLE)
+    println("  movq %%xmm0, %%rax");
+}
+
+static void bits_to_flonum(Type *ty) {
+  if (ty->kind == TY_FLOAT)
+    println("  movd %%eax, %%xmm0");
+  else if (ty->kind == TY_DOUBLE)
+    println("  movq %%rax, %%xmm0");
+}
+
 // Generate code for a given node.
 static void gen_expr(Node *node) {
   println("  .loc %d %d", node->tok->file->file_no, node->tok->line_no);
@@ -1124,10 +1140,12 @@ static void gen_expr(Node *node) {
     gen_expr(node->cas_addr);
     push();
     gen_expr(node->cas_new);
+    flonum_to_bits(node->cas_new->ty);
     push();
     gen_expr(node->cas_old);
     println("  mov %%rax, %%r8");
     load(node->cas_old->ty->base);
+    flonum_to_bits(node->cas_old->ty->base);
     pop("%rdx"); // new
     pop("%rdi"); // addr
 
@@ -1144,10 +1162,12 @@ static void gen_expr(Node *node) {
     gen_expr(node->lhs);
     push();
     gen_expr(node->rhs);
+    flonum_to_bits(node->rhs->ty);
     pop("%rdi");
 
     int sz = node->lhs->ty->base->size;
     println("  xchg %s, (%%rdi)", reg_ax(sz));
+    bits_to_flonum(node->ty);
 
     // A narrow exchange leaves the upper bits of the new value in the
     // register; extend the old value like a load of that type would.
